@@ -1,5 +1,6 @@
 import MosdnsVerif.Base.Hex
 import MosdnsVerif.Model.C16
+import MosdnsVerif.Gen.FnFraming
 
 namespace Driver.C16
 open Model.C16
@@ -37,6 +38,16 @@ def handle : List String → String
     | some m => match frame m with
       | none => "refused"
       | some w => "ok " ++ summary w
+    | none => "bad-op"
+  | ["packtcp", w] =>
+    match bytes? w with
+    | some w => match Gen.packTCPBuffer w with
+      | none => "refused"
+      | some f => "ok " ++ summary f
+    | none => "bad-op"
+  | ["packudp", w] =>
+    match bytes? w with
+    | some w => "ok " ++ summary (Gen.packBuffer w)
     | none => "bad-op"
   | ["read", stream, sizes] =>
     match bytes? stream, sizes? sizes with
